@@ -142,6 +142,7 @@ package comdoc
 //@        forall(k, 0, len(files), files[k] != nil) && len(files) <= len(r.Files) && len(stack) <= len(files) + 1
 //@   ensures @every_listed_entry_exists ret1 == nil ==> forall(k, 0, len(ret0), ret0[k] != nil)
 //@   ensures @listing_and_work_bounded_by_the_directory_size len(ret0) <= len(r.Files)
+//@   fresh ret0
 //@   modifies nothing
 //@
 //@ extern (RawDirEnt).Name
@@ -220,3 +221,15 @@ package comdoc
 //@   property C11 C18
 //@   nopanic
 //@   ensures @a_well_formed_document_or_an_error ret1 == nil ==> cdfOK(ret0)
+//@
+//@ func (*ComDoc).writeShortSector
+//@   property C18 C03
+//@   standalone
+//@   requires cdfOK(r) && (r.SectorSize == 512 || r.SectorSize == 4096) && 0 <= shortSector && shortSector <= 1048576
+//@   requires @short_sector_size_is_a_power_of_two_below_the_sector_size r.ShortSectorSize < r.SectorSize && \
+//@        (r.ShortSectorSize == 1 || r.ShortSectorSize == 2 || r.ShortSectorSize == 4 || r.ShortSectorSize == 8 || r.ShortSectorSize == 16 || r.ShortSectorSize == 32 || \
+//@         r.ShortSectorSize == 64 || r.ShortSectorSize == 128 || r.ShortSectorSize == 256 || r.ShortSectorSize == 512 || r.ShortSectorSize == 1024 || r.ShortSectorSize == 2048)
+//@   loop 1 sig "for ; bigSectorIndex > 0; bigSectorIndex--" invariant bigSectorIndex <= 1048576 && root == addr(r.Files[r.rootStorage])
+//@   ensures @mini_stream_size_in_the_root_entry_never_shrinks r.Files[r.rootStorage].StreamSize >= old(r.Files[r.rootStorage].StreamSize)
+//@   ensures @mini_stream_covers_the_short_sector_written ret0 == nil ==> r.Files[r.rootStorage].StreamSize >= (shortSector + 1) * r.ShortSectorSize
+//@   before call invoke io.WriterAt.WriteAt(_, b, off): assert @a_whole_short_sector_is_written len(b) == r.ShortSectorSize
